@@ -160,6 +160,18 @@ int cmdGraphs(int argc, char** argv) {
 				c.PrettySortBlocks();
 				c.Optimize();
 			}
+			// what the sorter makes of the corrupt graph, for comparison with the sorter transcription (NifSort): not a
+			// property clause, a difference is model drift
+			{
+				NifFile c(nif);
+				UidMap um;
+				ProjOpts po;
+				po.names = true;
+				std::string pre = project(c, um, po);
+				c.PrettySortBlocks();
+				std::string post = project(c, um, po);
+				out += "{\"e\":\"sort\",\"op\":\"SortCorrupt\",\"case\":" + caseOf(k) + ",\"pre\":" + pre + ",\"post\":" + post + "}\n";
+			}
 			std::string bytes = saveToString(nif, false, false);
 			out += pipeline(bytes, caseOf(k));
 		},
